@@ -86,15 +86,15 @@ theorem lit_pot (R : Nat) (s : IS) (hs : 1 ≤ s.m) (steps : Nat) :
 
 def AggrOk (R : Nat) (rec : IS → Byte → Nat → Bool → Nat → Out (IS × Nat × Bool × Nat)) (fuel : Nat) : Prop :=
   ∀ (s : IS) (c : Byte) (depth : Nat) (bad : Bool) (steps : Nat), s.m + 1 ≤ fuel →
-    ∃ s' d' b' st, rec s c depth bad steps = .ok (s', d', b', st) ∧ s'.m ≤ s.m ∧ st + pot R s' ≤ steps + pot R s + 1
+    ∃ s' d' b' st, rec s c depth bad steps = .ok (s', d', b', st) ∧ s'.m ≤ s.m + 1 ∧ st + pot R s' ≤ steps + pot R s + 5
 
-theorem aggrLoop_ok (R : Nat) : ∀ fuel, AggrOk R (aggrLoop fuel) fuel := by
+theorem aggrLoop_ok (R : Nat) (stay : Bool) : ∀ fuel, AggrOk R (aggrLoop stay fuel) fuel := by
   intro fuel
   induction fuel with
   | zero => intro s c depth bad steps h; omega
   | succ fuel ih =>
     intro s c depth bad steps h
-    show ∃ s' d' b' st, aggrStep (aggrLoop fuel) s c depth bad steps = _ ∧ _
+    show ∃ s' d' b' st, aggrStep (aggrLoop stay fuel) stay s c depth bad steps = _ ∧ _
     unfold aggrStep
     by_cases hg : s.good = true
     · simp only [hg, Bool.not_true, Bool.false_eq_true, if_false]
@@ -102,8 +102,8 @@ theorem aggrLoop_ok (R : Nat) : ∀ fuel, AggrOk R (aggrLoop fuel) fuel := by
       have hge := pot_ge (R := R) hpos
       -- continuing with `get` on the current stream
       have cont : ∀ (d : Nat) (b : Bool), ∃ s' d' b' st,
-          aggrLoop fuel (s.get).1 ((s.get).2.getD c) d b (steps + 1) = .ok (s', d', b', st) ∧ s'.m ≤ s.m ∧
-            st + pot R s' ≤ steps + pot R s + 1 := by
+          aggrLoop stay fuel (s.get).1 ((s.get).2.getD c) d b (steps + 1) = .ok (s', d', b', st) ∧ s'.m ≤ s.m + 1 ∧
+            st + pot R s' ≤ steps + pot R s + 5 := by
         intro d b
         have hgm := get_m s
         obtain ⟨s', d', b', st, h1, h2, h3⟩ := ih (s.get).1 ((s.get).2.getD c) d b (steps + 1) (by rcases hgm with h | h <;> omega)
@@ -130,12 +130,15 @@ theorem aggrLoop_ok (R : Nat) : ∀ fuel, AggrOk R (aggrLoop fuel) fuel := by
             · have := pot_ge (R := R) (b := (getLiteralStr (s.putback chQuote)).1) (by omega); omega
         · split
           · split
-            · exact ⟨s, 0, bad, steps + 1, rfl, Nat.le_refl _, by omega⟩
+            · exact ⟨s, 0, bad, steps + 1, rfl, by omega, by omega⟩
             · exact cont _ _
-          · exact cont _ _
+          · split
+            · obtain ⟨hp, hpm, _⟩ := pot_putback R s c
+              exact ⟨_, depth, bad, steps + 1, rfl, hpm, by omega⟩
+            · exact cont _ _
     · simp at hg
       simp only [hg, Bool.not_false, if_true]
-      exact ⟨s, depth, bad, steps, rfl, Nat.le_refl _, by omega⟩
+      exact ⟨s, depth, bad, steps, rfl, by omega, by omega⟩
 
 
 theorem get_some_shape_aux {s s1 : IS} {c : Byte} (h : s.get = (s1, some c)) :
@@ -151,10 +154,10 @@ theorem ws_get_failed {s : IS} (h : s.m = 0) : (s.ws.get).2 = none := by
   simp [IS.ws, IS.good, IS.get]
 
 /-- `PushPastImbedAggr`: ends, consumes at least one byte (or the stream has failed), steps paid by the potential with
-a margin of 3 when the stream was alive -/
-theorem pushPastImbedAggr_ok (R fuel : Nat) (s : IS) (bad : Bool) (steps : Nat) (h : s.m + 1 ≤ fuel) :
-    ∃ s' b' st, pushPastImbedAggr fuel s bad steps = .ok (s', b', st) ∧ (s'.m + 1 ≤ s.m ∨ s'.m = 0) ∧
-      st + pot R s' ≤ steps + pot R s ∧ (1 ≤ s.m → st + pot R s' + 3 ≤ steps + pot R s) := by
+a margin of 2 when the stream was alive -/
+theorem pushPastImbedAggr_ok (R : Nat) (stay : Bool) (fuel : Nat) (s : IS) (bad : Bool) (steps : Nat) (h : s.m + 1 ≤ fuel) :
+    ∃ s' b' st, pushPastImbedAggr stay fuel s bad steps = .ok (s', b', st) ∧ (s'.m + 1 ≤ s.m ∨ s'.m = 0) ∧
+      st + pot R s' ≤ steps + pot R s ∧ (1 ≤ s.m → st + pot R s' + 2 ≤ steps + pot R s) := by
   unfold pushPastImbedAggr
   dsimp only
   have hw := ws_m s
@@ -181,19 +184,17 @@ theorem pushPastImbedAggr_ok (R fuel : Nat) (s : IS) (bad : Bool) (steps : Nat) 
     simp only []
     split
     · have hg2 := get_m s1
-      obtain ⟨s2, d, b2, st, h1, h2, h3⟩ := aggrLoop_ok R fuel (s1.get).1 ((s1.get).2.getD c) 1 bad (steps + 1)
+      obtain ⟨s2, d, b2, st, h1, h2, h3⟩ := aggrLoop_ok R stay fuel (s1.get).1 ((s1.get).2.getD c) 1 bad (steps + 1)
         (by rcases hg2 with hh | hh <;> rcases hs1 with h1 | h1 <;> omega)
       rw [h1]
-      have hfin : st + pot R s2 + 3 ≤ steps + pot R s := by
+      -- `s1` delivered a character, so it is alive: its potential is at least 4 + R
+      obtain ⟨hf1, _, _, _⟩ := get_some_shape_aux hgeq
+      have hs1pos : 1 ≤ s1.m := by simp [IS.m, hf1]
+      have hge1 := pot_ge (R := R) hs1pos
+      have hfin : st + pot R s2 + 2 ≤ steps + pot R s := by
         rcases hg2 with hh | hh
         · have := pot_drop (R := R) hh (Nat.le_refl 1); omega
         · rw [pot_zero hh] at h3
-          have hzz : s2.m = 0 := by omega
-          rw [pot_zero hzz] at h3 ⊢
-          -- `s1` delivered a character, so it is alive: its potential is at least 4 + R
-          obtain ⟨hf1, _, _, _⟩ := get_some_shape_aux hgeq
-          have : 1 ≤ s1.m := by simp [IS.m, hf1]
-          have := pot_ge (R := R) this
           omega
       exact ⟨s2, _, st, rfl, by rcases hg2 with hh | hh <;> rcases hs1 with h1 | h1 <;> omega, by omega, fun _ => hfin⟩
     · exact ⟨s1, bad, steps, rfl, hs1, by omega, fun _ => by omega⟩
@@ -214,14 +215,14 @@ def RecordOk (R : Nat) (rec : IS → Bool → Nat → Out (IS × Bool × Nat)) (
     ∃ s' b' st, rec s bad steps = .ok (s', b', st) ∧ s'.m ≤ s.m ∧ st + pot R s' ≤ steps + pot R s + 1
 
 /-- the loop of `SkipSimpleRecord` around `PushPastString` / `PushPastImbedAggr` -/
-theorem recordLoop_ok (R F : Nat) : ∀ fuel, fuel ≤ F → RecordOk R (recordLoop (pushPastImbedAggr F) fuel) fuel := by
+theorem recordLoop_ok (R : Nat) (stay : Bool) (F : Nat) : ∀ fuel, fuel ≤ F → RecordOk R (recordLoop (pushPastImbedAggr stay F) fuel) fuel := by
   intro fuel
   induction fuel with
   | zero => intro _ s bad steps h; omega
   | succ fuel ih =>
     intro hF s bad steps h
     have ih := ih (by omega)
-    show ∃ s' b' st, recordStep (recordLoop (pushPastImbedAggr F) fuel) (pushPastImbedAggr F) s bad steps = _ ∧ _
+    show ∃ s' b' st, recordStep (recordLoop (pushPastImbedAggr stay F) fuel) (pushPastImbedAggr stay F) s bad steps = _ ∧ _
     unfold recordStep
     generalize hgeq : s.get = g
     obtain ⟨s1, o⟩ := g
@@ -248,7 +249,7 @@ theorem recordLoop_ok (R F : Nat) : ∀ fuel, fuel ≤ F → RecordOk R (recordL
             subst hlp
             have hpb : (s1.putback chLParen).m ≤ s.m := by
               rw [putback_restore hf1 hpre]; simp [IS.m, hf1] at hlt ⊢; omega
-            obtain ⟨s2, b2, st2, a, b, c2, c3⟩ := pushPastImbedAggr_ok R F (s1.putback chLParen) bad (steps + 1) (by omega)
+            obtain ⟨s2, b2, st2, a, b, c2, c3⟩ := pushPastImbedAggr_ok R stay F (s1.putback chLParen) bad (steps + 1) (by omega)
             have hpbpos : 1 ≤ (s1.putback chLParen).m := by rw [putback_restore hf1 hpre]; simp [IS.m, hf1]
             have c3 := c3 hpbpos
             rw [a]
@@ -264,8 +265,8 @@ theorem recordLoop_ok (R F : Nat) : ∀ fuel, fuel ≤ F → RecordOk R (recordL
             exact ⟨s', b', st, h1, by omega, by omega⟩
 
 /-- `SkipSimpleRecord` as a function of the stream (the shared `bad` flag threaded): ends, never un-reads, paid -/
-theorem skipSimpleRecord_ok (R fuel : Nat) (s : IS) (bad : Bool) (steps : Nat) (h : s.m + 1 ≤ fuel) :
-    ∃ s' b' st, skipSimpleRecord fuel s bad steps = .ok (s', b', st) ∧ s'.m ≤ s.m ∧ st + pot R s' ≤ steps + pot R s + 1 := by
+theorem skipSimpleRecord_ok (R : Nat) (stay : Bool) (fuel : Nat) (s : IS) (bad : Bool) (steps : Nat) (h : s.m + 1 ≤ fuel) :
+    ∃ s' b' st, skipSimpleRecord stay fuel s bad steps = .ok (s', b', st) ∧ s'.m ≤ s.m ∧ st + pot R s' ≤ steps + pot R s + 1 := by
   unfold skipSimpleRecord
   dsimp only
   have hw := ws_m s
@@ -280,7 +281,7 @@ theorem skipSimpleRecord_ok (R fuel : Nat) (s : IS) (bad : Bool) (steps : Nat) (
     obtain ⟨hf1, ⟨ps, hpre⟩, hlt, hpos⟩ := get_some_shape hgeq
     simp only []
     split
-    · obtain ⟨s2, b2, st, a, b, c2⟩ := recordLoop_ok R fuel fuel (Nat.le_refl _) s1 bad steps (by omega)
+    · obtain ⟨s2, b2, st, a, b, c2⟩ := recordLoop_ok R stay fuel fuel (Nat.le_refl _) s1 bad steps (by omega)
       rw [a]
       have := pot_mono (R := R) (a := s1) (b := s) (by omega)
       exact ⟨s2, _, st, rfl, by omega, by omega⟩
@@ -392,15 +393,15 @@ def PartOk (R : Nat) (rec : IS → Option Byte → Nat → Bool → Nat → Out 
     ∃ s' n st, rec s c? idx bad steps = .ok (s', n, st) ∧ s'.m ≤ s.m ∧ st + pot R s' ≤ steps + pot R s + 1 + headFlag s c?
 
 /-- the part loop of `CreateSubSuperInstance` -/
-theorem partLoop_ok (R F : Nat) (guard : Option Nat) :
-    ∀ fuel, fuel ≤ 2 * F → PartOk R (partLoop (skipSimpleRecord F) (garbageLoop F) guard fuel) fuel := by
+theorem partLoop_ok (R F : Nat) (stay : Bool) (guard : Option Nat) :
+    ∀ fuel, fuel ≤ 2 * F → PartOk R (partLoop (skipSimpleRecord stay F) (garbageLoop F) guard fuel) fuel := by
   intro fuel
   induction fuel with
   | zero => intro _ s c? idx bad steps _ h; omega
   | succ fuel ih =>
     intro hF s c? idx bad steps hinv h
     have ih := ih (by omega)
-    show ∃ s' n st, partStep (partLoop (skipSimpleRecord F) (garbageLoop F) guard fuel) (skipSimpleRecord F) (garbageLoop F) guard
+    show ∃ s' n st, partStep (partLoop (skipSimpleRecord stay F) (garbageLoop F) guard fuel) (skipSimpleRecord stay F) (garbageLoop F) guard
       s c? idx bad steps = _ ∧ _
     unfold partStep
     cases c? with
@@ -421,7 +422,7 @@ theorem partLoop_ok (R F : Nat) (guard : Option Nat) :
             (s2.m + 1 ≤ s.m ∨ s2.m = 0 ∨ headFlag s (some c) = 1) →
             st + pot R s2 + 1 ≤ steps + pot R s + 1 + headFlag s (some c) →
             ∃ s' n st', (match garbageLoop F (s2.ws.peek).1 (s2.ws.peek).2 st with
-                | .ok (s3, c3?, st3) => partLoop (skipSimpleRecord F) (garbageLoop F) guard fuel s3 c3? idx2 bad2 st3
+                | .ok (s3, c3?, st3) => partLoop (skipSimpleRecord stay F) (garbageLoop F) guard fuel s3 c3? idx2 bad2 st3
                 | .overflow i k => .overflow i k
                 | .outOfFuel => .outOfFuel) = .ok (s', n, st') ∧ s'.m ≤ s.m ∧
               st' + pot R s' ≤ steps + pot R s + 1 + headFlag s (some c) := by
@@ -467,7 +468,7 @@ theorem partLoop_ok (R F : Nat) (guard : Option Nat) :
             cases hk : (readStdKeyword s).2 with
             | nil => simp [hk] at hne
             | cons a t => simp
-          obtain ⟨s2, b2, st2, a, b, c2⟩ := skipSimpleRecord_ok R F (readStdKeyword s).1 bad (steps + 1 + (readStdKeyword s).2.length) (by omega)
+          obtain ⟨s2, b2, st2, a, b, c2⟩ := skipSimpleRecord_ok R stay F (readStdKeyword s).1 bad (steps + 1 + (readStdKeyword s).2.length) (by omega)
           rw [a]
           simp only []
           have hkp : pot R (readStdKeyword s).1 + 4 * (readStdKeyword s).2.length ≤ pot R s := by
@@ -489,7 +490,7 @@ theorem headFlag_failed {s : IS} (c? : Option Byte) (h : s.m = 0) : headFlag s c
 
 /-- `CreateSubSuperInstance` is a stage with constant 3: it ends, never un-reads, and all its loops (part loop, garbage
 loop, `SkipSimpleRecord`, `PushPastImbedAggr`, string literals) are paid by the potential -/
-theorem createSubSuper_ok (R : Nat) (guard : Option Nat) (F : Nat) (hF : 1 ≤ F) : StageOk R (createSubSuper guard F) 3 (F - 1) := by
+theorem createSubSuper_ok (R : Nat) (stay : Bool) (guard : Option Nat) (F : Nat) (hF : 1 ≤ F) : StageOk R (createSubSuper stay guard F) 3 (F - 1) := by
   intro s hB
   unfold createSubSuper
   dsimp only
@@ -502,7 +503,7 @@ theorem createSubSuper_ok (R : Nat) (guard : Option Nat) (F : Nat) (hF : 1 ≤ F
     · omega
     · have hz : ((s.ws.get).1.peek).1.m = 0 := by omega
       rw [headFlag_failed _ hz]; omega
-  obtain ⟨s', n, st, h1, h2, h3⟩ := partLoop_ok R F guard (2 * F) (Nat.le_refl _) ((s.ws.get).1.peek).1 ((s.ws.get).1.peek).2
+  obtain ⟨s', n, st, h1, h2, h3⟩ := partLoop_ok R F stay guard (2 * F) (Nat.le_refl _) ((s.ws.get).1.peek).1 ((s.ws.get).1.peek).2
     0 false 1 (headInv_peek _) hfuel
   rw [h1]
   refine ⟨⟨s', n, 0, st⟩, rfl, ?_, ?_⟩
